@@ -20,12 +20,21 @@ Lemma agree_interval_intersection_width a b c d :
   gen_interval_intersection_width N a b c d = interval_intersection_width N a b c d.
 Proof. reflexivity. Qed.
 (* AGREE gen_boxes_intersect *)
+(* the code is one of the two modelled variants: open boxes (pinned) or closed boxes
+   (fixes/C12-subdivision-closed-boxes-extent.diff); the harness probes which *)
 Lemma agree_boxes_intersect a0 a1 a2 a3 b0 b1 b2 b3 :
-  gen_boxes_intersect N a0 a1 a2 a3 b0 b1 b2 b3 = boxes_intersect N (a0, a1, a2, a3) (b0, b1, b2, b3).
+  gen_boxes_intersect N a0 a1 a2 a3 b0 b1 b2 b3 = boxes_intersect N (a0, a1, a2, a3) (b0, b1, b2, b3)
+  \/ gen_boxes_intersect N a0 a1 a2 a3 b0 b1 b2 b3 = boxes_intersect_closed N (a0, a1, a2, a3) (b0, b1, b2, b3).
 Proof.
-  unfold gen_boxes_intersect, boxes_intersect, interval_intersection_width.
-  match goal with |- (if ?c then true else false) = _ => destruct c end; reflexivity.
+  first [ left; unfold gen_boxes_intersect, boxes_intersect, interval_intersection_width;
+          match goal with |- (if ?c then true else false) = _ => destruct c end; reflexivity
+        | right; unfold gen_boxes_intersect, boxes_intersect_closed;
+          match goal with |- (if ?c then true else false) = _ => destruct c end; reflexivity ].
 Qed.
+(* AGREE gen_box_extent *)
+Lemma agree_box_extent xmin xmax ymin ymax :
+  gen_box_extent N xmin xmax ymin ymax = box_extent N (xmin, xmax, ymin, ymax).
+Proof. reflexivity. Qed.
 (* AGREE gen_bezier2polynomial_real_2 *)
 Lemma agree_bezier2polynomial_real_2 p0 p1 :
   gen_bezier2polynomial_real_2 N p0 p1 = bez2poly_real N [p0; p1].
